@@ -192,8 +192,18 @@ def analyze(ctx, want):
     # shift_ids offsets every state id
     so = F.fn(r"internal::nfa::NfaState::offset$")
     ctx.analysed_fn(so)
-    w = {f_ for (a, f_) in F.direct_writes(so)}
-    ob("C02.b", "NfaState::offset-shifts-every-id-field", {"state", "target_state"} <= w, "fields written by NfaState::offset: %s" % sorted(w), so.loc())
+    w = {"%s.%s" % (a.split("::")[-1], f_) for (a, f_) in F.direct_writes(so)}
+    need = {"NfaState.state", "NfaTransition.target_state", "EpsilonTransition.target_state"}
+    ob("C02.b", "NfaState::offset-shifts-every-id-field", need <= w, "fields written by NfaState::offset: %s (every StateID of a state: its own id, transition targets, epsilon targets)" % sorted(w), so.loc())
+    # every StateID-typed field of the three types is covered
+    idf = set()
+    for tn in ("internal::nfa::NfaState", "internal::nfa::NfaTransition", "internal::nfa::EpsilonTransition"):
+        a_ = F.adts.get(tn)
+        if a_:
+            for f_ in a_["variants"][0]["fields"]:
+                if f_["ty"]["s"] == "internal::ids::StateID":
+                    idf.add("%s.%s" % (tn.split("::")[-1], f_["name"]))
+    ob("C02.b", "NfaState::offset-covers-all-StateID-fields", idf <= w and bool(idf), "StateID fields %s, written %s" % (sorted(idf), sorted(w)), so.loc())
     ex, paths = run_fn(so, F, BaseModel())
     adds = set()
     for p in paths:
